@@ -188,7 +188,9 @@ def _interesting(md, r):
 
 
 def _stream(ctx, label, items, out, state, spec_compare=True):
-    """items: list of (spec, assignments). Observe, evaluate in Coq, record failures."""
+    """items: list of (spec, assignments). Observe the implementation now; Coq evaluates all streams together in _flush."""
+    import time
+    t0 = time.time()
     groups, meta = [], []
     for spec, assigns in items:
         try:
@@ -200,9 +202,30 @@ def _stream(ctx, label, items, out, state, spec_compare=True):
             continue
         groups.append((rg.coq_def(md), [row_lit(r) for r in rows]))
         meta.append((spec, md, rows))
-    if not groups:
+    state["pending"].append((label, spec_compare, groups, meta))
+    out.extra.setdefault("phase_wall_s", {})["observe_" + label] = round(time.time() - t0, 1)
+
+
+def _flush(ctx, out, state):
+    import time
+    pending, state["pending"] = state["pending"], []
+    allgroups = [g for _, _, groups, _ in pending for g in groups]
+    if not allgroups:
         return
-    res = eval_groups(ctx, label, groups)
+    t1 = time.time()
+    res_all = eval_groups(ctx, "all%d" % state["flushes"], allgroups)
+    state["flushes"] += 1
+    out.extra.setdefault("phase_wall_s", {})["coq_evaluation"] = round(time.time() - t1, 1)
+    off = 0
+    for label, spec_compare, groups, meta in pending:
+        n = len(groups)
+        res = {c: {(gi - off, ri) for gi, ri in res_all[c] if off <= gi < off + n} for c in CHECKS}
+        off += n
+        if meta:
+            _process(ctx, label, meta, res, out, state, spec_compare)
+
+
+def _process(ctx, label, meta, res, out, state, spec_compare):
     dist = out.distribution
     nrows = sum(len(m[2]) for m in meta)
     out.evaluations += nrows
@@ -426,7 +449,7 @@ def run(ctx):
     rng = ctx.rng
     os.makedirs(ctx.scratch.dir, exist_ok=True)     # the runner's widened pass re-uses (and may have removed) the directory
     out = Outcome(rule=RULE)
-    state = {"seen": set(), "spec_fail": {}, "exec_rejected": 0, "exec_on_rejection": 0}
+    state = {"seen": set(), "spec_fail": {}, "exec_rejected": 0, "exec_on_rejection": 0, "pending": [], "flushes": 0}
     thorough = ctx.tier == "thorough"
 
     # 0. corpus (past disagreements / finding witnesses), replayed first
@@ -434,48 +457,56 @@ def run(ctx):
     if corpus:
         _stream(ctx, "corpus", corpus, out, state)
 
-    # 1. exhaustive small grammar: every definition x every assignment
-    upto = 3 if thorough else 2
+    # 1. exhaustive small grammar: every definition x every assignment.  n <= 2 always; the complete n = 3 grammar
+    #    (19,200 definitions, ~480k assignments) when the search is widened or VERIF_C31_FULL=1, a random part otherwise.
+    full3 = ctx.widen > 1 or os.environ.get("VERIF_C31_FULL") == "1"
     exh = []
-    for n in range(1, upto + 1):
+    for n in (1, 2):
         for spec in rg.enum_defs(n):
             exh.append((spec, [list(a) for a in rg.all_assignments(spec)]))
-    if ctx.widen > 1 and not thorough:
-        upto = 3
+    if full3:
         exh += [(s, [list(a) for a in rg.all_assignments(s)]) for s in rg.enum_defs(3)]
-    out.distribution["exhaustive_up_to_fields"] = upto
+    out.distribution["exhaustive_up_to_fields"] = 3 if full3 else 2
     _stream(ctx, "exhaustive", exh, out, state)
+    if full3:
+        _flush(ctx, out, state)
 
     # 2. sampled definitions, 3..5 fields, python and shell, in-scope types; every assignment (capped)
-    if not thorough:
+    if not full3:
         three = list(rg.enum_defs(3))
-        sub = rng.sample(three, min(len(three), ctx.budget(150, 0)))
+        sub = rng.sample(three, min(len(three), ctx.budget(100, 1200)))
         _stream(ctx, "grammar3", [(s, [list(a) for a in rg.all_assignments(s)]) for s in sub], out, state)
-    nsamp = ctx.budget(200, 4000)
+    nsamp = ctx.budget(200, 700)
     items = []
     for _ in range(nsamp):
         spec = rg.sample_def(rng, rng.choice([3, 4, 4, 5, 5]))
-        items.append((spec, rg.sample_assignments(rng, spec, 48 if not thorough else 96)))
+        items.append((spec, rg.sample_assignments(rng, spec, 32 if not thorough else 48)))
     _stream(ctx, "sampled", items, out, state)
 
     # 3. extended types (mandatory str, int?, Any): model and spec; optional fileset fields (the deliberate
     #    `value is True` escape, outside the statement's optional/bool/str scope): model only
     items, items_fs = [], []
-    for _ in range(ctx.budget(120, 1500)):
+    for _ in range(ctx.budget(80, 300)):
         pool = rg.IN_SCOPE + ["strM", "int?", "any"]
         spec = rg.sample_def(rng, rng.choice([2, 3, 4, 5]), pool=pool)
-        items.append((spec, rg.sample_assignments(rng, spec, 48)))
-    for _ in range(ctx.budget(80, 800)):
+        items.append((spec, rg.sample_assignments(rng, spec, 32 if not thorough else 48)))
+    for _ in range(ctx.budget(50, 200)):
         spec = rg.sample_def(rng, rng.choice([2, 3, 4]), pool=rg.IN_SCOPE + ["file?", "file?"], kind="python")
-        items_fs.append((spec, rg.sample_assignments(rng, spec, 48)))
+        items_fs.append((spec, rg.sample_assignments(rng, spec, 32 if not thorough else 48)))
     _stream(ctx, "extended", items, out, state)
     _stream(ctx, "optfileset", items_fs, out, state, spec_compare=False)
 
+    _flush(ctx, out, state)
+    import time
     # 4. definitions define() must reject
-    _malformed(ctx, out, ctx.budget(40, 400))
+    t0 = time.time()
+    _malformed(ctx, out, ctx.budget(40, 300))
+    out.extra["phase_wall_s"]["malformed"] = round(time.time() - t0, 1)
 
     # 5. violations are reported before any execution
-    _before_execution(ctx, out, state, ctx.budget(40, 400))
+    t0 = time.time()
+    _before_execution(ctx, out, state, ctx.budget(40, 250))
+    out.extra["phase_wall_s"]["before_execution"] = round(time.time() - t0, 1)
 
     out.extra["spec_disagreements_by_finding"] = {str(k): v for k, v in state["spec_fail"].items()}
     out.extra["rejections_observed_at_entry_points"] = state["exec_rejected"]
